@@ -21,6 +21,7 @@ EXPLANATION = (
     "N_obs/N_j, union scale = N_obs/N_union; the +1 regulariser is inside log10 for all three histograms; "
     "_compute_likelihood, cumulative_square_diff and MLL_score equal their documented formulas as normal-form "
     "identities; mean rates come from forecast.expected_rates; D5 each function builds the result class of its "
+    "G-DEFAULT (on the closure incl. CatalogForecast.__init__): a mutable default argument neither escapes (stored, returned, handed to a callee that fills it) nor is changed in place. "
     "kind and calibration_test skips 'not-valid' results. NOT decided: numerical agreement with the theory page, the "
     "resampling distribution.")
 CLAUSES = {'D1': 'status protocol (empty observation)', 'D2': 'undersampling path', 'D3': 'division guards', 'D4': 'roles and formulas', 'D5': 'result classes'}
